@@ -918,6 +918,16 @@ fn run_pse(ws: &[&str]) -> Option<(String, Vec<String>)> {
     let nsock: usize = kinds.iter().map(|k| if k == "t2" { 2 } else { 1 }).sum();
     let ntcp: usize = kinds.iter().map(|k| match k.as_str() { "t2" => 2, "tb" | "tl" => 1, _ => 0 }).sum();
     let nl = nsock + ntcp;
+    // `flood=N`: in the FIRST pause every socket created by the builder's own `bind` (kinds tb / t2: the builder's backlog
+    // applies, 2048 by default) gets N more clients, held open: they all fit the listen queue and are all served after resume
+    let flood: usize = match kv(ws, "flood") {
+        None => 0,
+        Some(v) => match v.parse() {
+            Ok(k) if (1..=400).contains(&k) && !v.starts_with('+') => k,
+            _ => return None,
+        },
+    };
+    let nflood: usize = flood * kinds.iter().map(|k| match k.as_str() { "t2" => 2, "tb" => 1, _ => 0 }).sum::<usize>();
     let _beat = Beating::start();
     let mut last = (0usize, 0usize, String::new());
     for attempt in 0..3u32 {
@@ -1047,10 +1057,24 @@ fn run_pse(ws: &[&str]) -> Option<(String, Vec<String>)> {
                 let mut after = 0;
                 let mut base = s1;
                 // two pause / resume cycles: the second pause must take effect like the first
-                for _cycle in 0..2 {
+                for cycle in 0..2 {
                     handle.pause().await;
                     tokio::time::sleep(settle).await;
                     let mut n = 0;
+                    if cycle == 0 && flood > 0 {
+                        for (a, si) in &addrs {
+                            if let (A::Tcp(addr), true) = (a, matches!(kinds2[*si].as_str(), "tb" | "t2")) {
+                                for k in 0..flood {
+                                    // (a full listen queue drops the SYN: the connect would only complete on a retransmission)
+                                    let c = std::net::TcpStream::connect_timeout(addr, Duration::from_millis(700))
+                                        .map_err(|e| format!("flood: client {k} of {flood} could not connect to a paused listener bound by the builder ({e}): its listen queue holds fewer connections than the builder's backlog"))?;
+                                    let _ = socket2::SockRef::from(&c).set_linger(Some(Duration::ZERO));
+                                    keep.push(Client::Tcp(c));
+                                    n += 1;
+                                }
+                            }
+                        }
+                    }
                     for (a, _) in &addrs {
                         connect(a, &mut keep)?;
                         n += 1;
@@ -1113,13 +1137,17 @@ fn run_pse(ws: &[&str]) -> Option<(String, Vec<String>)> {
             t3.push(format!("C01\t{err}"));
             t3.push(format!("C05\t{err}"));
         }
+        if err.starts_with("setup-error flood:") {
+            t3.push(format!("C05\t{err}"));
+            t3.push(format!("C03\t{err}"));
+        }
         return Some((err, t3));
     }
     if during > 0 {
         t3.push(format!("C05\t{during} connection(s) were dispatched while the server was paused (listeners {}; pause() had returned at least 4.8 s earlier in the last of three attempts)", kinds.join(",")));
     }
-    if during + after < 2 * nl {
-        let msg = format!("after resume only {} of {} connections that arrived during the two pauses (one per socket, plus one per TCP socket whose client reset it at once) were handed to their service within 30 s (listeners {}): a listener is stranded or an accepted connection was discarded", during + after, 2 * nl, kinds.join(","));
+    if during + after < 2 * nl + nflood {
+        let msg = format!("after resume only {} of {} connections that arrived during the two pauses (one per socket, plus one per TCP socket whose client reset it at once, plus {nflood} held open) were handed to their service within 30 s (listeners {}): a listener is stranded or an accepted connection was discarded", during + after, 2 * nl + nflood, kinds.join(","));
         t3.push(format!("C05\t{msg}"));
         // an accepted connection that never reaches its listener's service while the server runs (C01)
         t3.push(format!("C01\t{msg}"));
@@ -2015,6 +2043,9 @@ fn gen(a: &Args) {
         for l in ["pse workers=1 ls=ul,tl", "pse workers=2 ls=ub,t2"] {
             writeln!(w, "{l}").unwrap();
         }
+        // more clients during ONE pause than a 128-entry listen queue holds (seed16 C05-31 capped the backlog at 128)
+        writeln!(w, "pse workers=2 ls=tb flood=200").unwrap();
+        writeln!(w, "pse workers=1 ls=tl flood=401").unwrap();
         if thorough {
             for l in ["pse workers=1 ls=ul", "pse workers=1 ls=ub", "pse workers=1 ls=tl", "pse workers=1 ls=tb", "pse workers=3 ls=tb,ul,tl,ub"] {
                 writeln!(w, "{l}").unwrap();
